@@ -69,7 +69,7 @@ class Job:
         self.tag = tag or name
 
     def run(self):
-        d = tempfile.mkdtemp(prefix='c17-')
+        d = tempfile.mkdtemp(prefix='c17_')      # no '-': what a path spells is decided by the jobs, not by a random name
         try:
             for fn, content in self.files.items():
                 open(os.path.join(d, fn), 'w', encoding='utf8').write(content)
@@ -107,11 +107,19 @@ def stdio_variant(j, stdin=True, stdout=True):
             setup=j.setup, capture=j.capture, tag=j.tag + '/' + '+'.join(x for x, y in (('stdin', stdin), ('stdout', stdout)) if y))
     if hasattr(j, 'deferred'):
         n.deferred = j.deferred
+    if hasattr(j, 'alternatives'):
+        n.alternatives = j.alternatives
     return n
 
 
 def judge(job, res):
-    exp = job.expected
+    if hasattr(job, 'alternatives'):
+        whys = [judge_one(exp, res) for exp in job.alternatives]
+        return None if any(w is None for w in whys) else whys[0]
+    return judge_one(job.expected, res)
+
+
+def judge_one(exp, res):
     if exp[0] == 'ok':
         want = exp[1] if isinstance(exp[1], dict) else {'out': exp[1]}
         if res['code'] != 0:
@@ -191,6 +199,21 @@ def build_jobs(ck):
             r = eval_mod.evaluate(text, g2)
             return fmt('{}\t{}'.format(k, '%.4g' % v if v is not None else 'None') for k, v in r.items())
         jobs.append(Job('eval', 'wordseg.evaluate', ['-q', '@in.txt', '@gold.txt'], {'in.txt': fmt(text), 'gold.txt': fmt(g2)}, expect(fe2)))
+        # utterances separated by other line boundaries than "\n" (U+2028, NEL, form feed, CR LF) in all the files: whatever
+        # the command takes for a line end, it takes the same in the text, gold and units files (both readings are accepted:
+        # str.splitlines boundaries, or "\n" only)
+        for brk in ('\u2028', '\x85', '\x0c', '\r\n'):
+            files = {'in.txt': brk.join(text) + '\n', 'gold.txt': brk.join(gold) + '\n', 'units.txt': brk.join(units) + '\n'}
+            alts = []
+            for split in (str.splitlines, lambda c: c.split('\n')):
+                def fe4(files=files, split=split):
+                    t, g, u = ([l.strip() for l in split(files[n]) if l.strip()] for n in ('in.txt', 'gold.txt', 'units.txt'))
+                    r = eval_mod.evaluate(t, g, units=u)
+                    return fmt('{}\t{}'.format(k, '%.4g' % v if v is not None else 'None') for k, v in r.items())
+                alts.append(expect(fe4))
+            j = Job('eval', 'wordseg.evaluate', ['-q', '-r', '@units.txt', '@in.txt', '@gold.txt'], files, alts[0], tag='eval line boundary %r' % brk)
+            j.alternatives = alts
+            jobs.append(j)
         # scores that are exactly 0 (zero numerator, non-zero denominator) and undefined scores (zero denominator)
         # side by side: a text without internal boundaries, a gold with some, single-word utterances
         wz = [''.join(rng.choice('abc') for _ in range(rng.randint(2, 4))) for _ in range(3)]
@@ -520,6 +543,13 @@ def stdio_jobs(ck, jobs):
         picked += [others[i] for i in sorted(rng.sample(range(len(others)), min(k - len(picked), len(others))))]
         for i, j in enumerate(picked):
             res.append(stdio_variant(j, *modes[i % 3]))
+    # the text on standard input is read as the files are: every run whose files use another line boundary than "\n" again with
+    # the text on stdin (the gold and units files stay files)
+    seen = set()
+    for j in jobs:
+        if hasattr(j, 'alternatives') and j.tag not in seen:
+            seen.add(j.tag)
+            res.append(stdio_variant(j, True, False))
     # a text that is not ASCII through the standard streams
     trees = [sl.rand_tree(rng, sl.PHONES['ipa']) for _ in range(3)]
     lines = [sl.render(t, DEFSEP, 'padded') for t in trees]
@@ -604,16 +634,16 @@ DP_TABLE = {
     'eval-maximize': (None, 'flag', None),
     'eval-interval': (None, 'uint', ['4', '0']),
     'estimator': ('-E', 'map', {'viterbi': 'V', 'flip': 'F', 'tree': 'T', 'decayed-flip': 'D'}),
-    'decay-rate': ('-D', 'float', ['0.75', '0']),
+    'decay-rate': ('-D', 'float', ['0.75', '0', '0.1234567']),
     'samples-per-utt': ('-S', 'uint', ['17', '0']),
     'mode': ('-m', 'map', {'online': 'online', 'batch': 'batch'}),
     'ngram': ('-n', 'map', {'unigram': '1', 'bigram': '2'}),
     'do-mbdp': (None, 'flag', None),
-    'a1': (None, 'float', ['0.25', '0']),
+    'a1': (None, 'float', ['0.25', '0', '1e-07']),
     'b1': (None, 'float', ['3.5', '0']),
     'a2': (None, 'float', ['0.125', '0']),
     'b2': (None, 'float', ['4.5', '0']),
-    'Pstop': ('-p', 'float', ['0.3', '0']),
+    'Pstop': ('-p', 'float', ['0.3', '0', '0.0000004']),
     'hypersamp-ratio': ('-H', 'float', ['0.2', '0']),
     'nchartypes': (None, 'uint', ['31', '0']),
     'aeos': (None, 'float', ['2.5', '0']),
@@ -621,7 +651,7 @@ DP_TABLE = {
     'pya-beta-a': (None, 'float', ['1.5', '0']),
     'pya-beta-b': (None, 'float', ['2.5', '0']),
     'pya-gamma-s': (None, 'float', ['12', '0']),
-    'pya-gamma-c': (None, 'float', ['0.3', '0']),
+    'pya-gamma-c': (None, 'float', ['0.3', '0', '0.30000000000000004']),
     'trace-every': (None, 'uint', ['6', '0']),
     'nsubjects': ('-s', 'uint', ['2', '0']),
     'forget-rate': ('-F', 'float', ['5', '0']),
@@ -629,7 +659,7 @@ DP_TABLE = {
     'anneal-iterations': (None, 'uint', ['8', '0']),
     'anneal-start-temperature': (None, 'float', ['3.5', '0']),
     'anneal-stop-temperature': (None, 'float', ['1.5', '0']),
-    'anneal-a': (None, 'float', ['0.6', '0']),
+    'anneal-a': (None, 'float', ['0.6', '0', '12345.678901']),
     'anneal-b': (None, 'float', ['0.7', '0']),
     'result-field-separator': (None, 'str', [',', ';', '\t', ' ']),      # "\t" is the documented default
     'forget-method': (None, 'map', {'proportional': 'P', 'uniformly': 'U'}),
@@ -694,7 +724,8 @@ def dpseg_option_jobs(ck, tables):
         else:
             singles += [(o, v) for v in (sorted(vals) if kind == 'map' else vals)]
     if not ck.thorough:
-        must = [s for s in singles if s[0] in ('estimator', 'ngram', 'forget-method') or s in (('result-field-separator', '\t'), ('eval-file', '@my eval.txt'))]
+        must = [s for s in singles if s[0] in ('estimator', 'ngram', 'forget-method') or s in (('result-field-separator', '\t'), ('eval-file', '@my eval.txt'))
+                or s in (('a1', '1e-07'), ('Pstop', '0.0000004'), ('decay-rate', '0.1234567'), ('anneal-a', '12345.678901'), ('pya-gamma-c', '0.30000000000000004'))]      # magnitudes and precisions
         rest = [s for s in singles if s not in must]
         singles = must + [rest[i] for i in sorted(rng.sample(range(len(rest)), 8))]
     for o, v in singles:
@@ -867,7 +898,9 @@ def ag_echo_jobs(ck, bindir):
         zeros += [('--pya-beta-b', ('f', '0')), ('--pyb-gamma-s', ('g', '0')), ('--pyb-gamma-c', ('h', '0')), ('--resample-pycache-niter', ('R', '0'))]
     items = items + zeros
     # a file-valued option: the program must write that file (also when its name holds a space)
-    items = items + [('--print-grammar-file', ('FILE', 'grammar.out')), ('--print-grammar-file', ('FILE', 'grammar out.txt'))]
+    # ... or spells the wrapper's own -r / -n / -x options, with and without digits behind them
+    items = items + [('--print-grammar-file', ('FILE', 'grammar.out')), ('--print-grammar-file', ('FILE', 'grammar out.txt')),
+                     ('--print-grammar-file', ('FILE', 'g-r1-n5-x3.out')), ('--print-grammar-file', ('FILE', 'grammar-run-new-x.out'))]
     for opt, (key, val) in items:
         argv = ['-vv', '--nruns', '1', '-d', '100', '-n', '4', '-x', '2']
         if key == 'FILE':
@@ -983,7 +1016,7 @@ def main():
         if kind in seen or len(seen) >= 12:
             continue
         seen.add(kind)
-        ck.violation({'site': 'python -m ' + j.module, 'input': desc, 'expected': repr(j.expected)[:400], 'status': r['code'], 'stderr': r['err'][-400:],
+        ck.violation({'site': 'python -m ' + j.module, 'input': desc, 'expected': repr(j.expected)[:400], 'status': r['code'], 'stderr': r['err'][-4000:],
                       'result': (r['out'] or '')[:400], 'received': r.get('argvs')},
                      'property fails on the implementation (%s): %s' % (j.tag, why))
     ck.cov['failing_runs'] = len(bad)
